@@ -39,6 +39,10 @@ func probeDesign() *m.Design {
 	}
 	s.Methods = append(s.Methods, &m.Method{Name: "unions", Payload: rt.Obj(rt.Fld("items", un(m.Boolean, m.String), false)), Result: rt.Obj(rt.Fld("items", un(m.Int, m.Float64), false)),
 		HTTP: &m.HTTPEndpoint{Routes: []m.Route{{Verb: "POST", Path: "/unions"}}}})
+	d.Types = append(d.Types, &m.UserType{Name: "Pair", Var: "v3", Result: true, Identifier: "application/vnd.pair",
+		Attr:  rt.Obj(rt.Fld("id", m.Prim(m.Int64), true), rt.Fld("title", m.Prim(m.String), true)),
+		Views: []*m.View{{Name: "default", Fields: []m.ViewField{{Name: "id"}, {Name: "title"}}}, {Name: "tiny", Fields: []m.ViewField{{Name: "id"}}}}})
+	s.Methods = append(s.Methods, &m.Method{Name: "bview", Streaming: "bidirectional", StreamingPayload: m.Prim(m.String), Result: m.UserRef("Pair"), HTTP: &m.HTTPEndpoint{Routes: []m.Route{{Verb: "GET", Path: "/bview"}}}})
 	s.Methods = append(s.Methods, &m.Method{Name: "ticks", Streaming: "result", Result: m.Prim(m.Int64), HTTP: &m.HTTPEndpoint{Routes: []m.Route{{Verb: "GET", Path: "/ticks"}}}})
 	d.Services = []*m.Service{s}
 	return d
@@ -80,6 +84,21 @@ func TestProbes(t *testing.T) {
 		}
 		clean := o.ClientErr == nil && o.ClientStream != nil && o.ClientStream.End == "eof"
 		return !clean, "result stream closed by the service without a message: client got" + errText(o)
+	})
+	rt.Probe(streamcase.ViewLostFinding, func() (bool, string) {
+		// the service receives one message, then streams one result rendered with the view "tiny"
+		o, err := h.Do(&harness.Case{Op: "call", Svc: "probe", Method: "bview", Stream: &harness.StreamSpec{Script: "cs", View: "tiny",
+			Send:    []value.V{value.Str("x")},
+			Results: []value.V{value.Object(value.Field{N: "id", V: value.Int(1)}, value.Field{N: "title", V: value.Str("t")})}}})
+		if err != nil {
+			t.Fatalf("INCONCLUSIVE: %v", err)
+		}
+		got := "nothing"
+		if o.ClientStream != nil {
+			got = strings.Join(o.ClientStream.Log, " ")
+		}
+		clean := o.ClientStream != nil && len(o.ClientStream.Received) == 1
+		return !clean, "bidirectional stream, SetView(\"tiny\"), Recv before Send: client " + got
 	})
 	rt.Probe("C03-response-header-array-not-split", func() (bool, string) {
 		o := call("hdrarray", value.Object(value.Field{N: "l", V: value.Array(value.Int(1), value.Int(2))}))
